@@ -130,6 +130,17 @@ func (cls *CachedLocations) Open(ctx *Context, sys *System, name string, check b
 
 	loc, dead := cls.expire(ctx, sys, name, false)
 
+	if cl, have := cls.locs[name]; have {
+		// A live entry.  Its location might not be loaded yet:
+		// whoever created the entry releases our lock before
+		// taking the entry's lock (below), so deciding by 'loc
+		// == nil' would replace that entry and load the
+		// location a second time.  'Get' waits for that load
+		// (or does it).
+		cls.Unlock()
+		return cl.Get(ctx, sys, name, check)
+	}
+
 	var err error
 	if loc == nil || dead {
 		Log(INFO, ctx, "CachedLocations.Open", "name", name, "cached", "empty")
@@ -269,10 +280,11 @@ func (cl *CachedLocation) Get(ctx *Context, sys *System, name string, checkExist
 		Log(DEBUG, ctx, "CachedLocation.Get", "name", name, "opening", false)
 		ctx.SetLoc(loc)
 	}
+	failed := nil == cl.Location
 	cl.Unlock()
 
 	// Remove from cache if location does not exist so the cache does not explode
-	if nil == cl.Location {
+	if failed {
 		sys.CachedLocations.Lock()
 		delete(sys.CachedLocations.locs, name)
 		sys.CachedLocations.Unlock()
